@@ -414,7 +414,7 @@ def run_tracing(prop, tier, seed, ctx):
 
 # ------------------------------------------------------------------------------------------------ two overlapping subscriptions (C13)
 DUAL_INSTS = [("map:add:1", 5, 7), ("filter:mod:2:0", 5, 7), ("scan:lin:2:0", 6, 8), ("skip:1", 6, 8), ("take:1", 6, 8), ("take:2", 6, 8),
-              ("merge:2", 6, 7), ("concat:2", 6, 8), ("combine:2", 6, 7), ("fromiter:2", 6, 8), ("fromiter:inf", 5, 7), ("foreach", 5, 7)]
+              ("merge:2", 6, 7), ("concat:2", 6, 8), ("combine:2", 6, 7), ("fromiter:2", 6, 8), ("fromiter:inf", 5, 7), ("foreach", 5, 7), ("flatten", 7, 9)]
 
 
 def _depths(script, trace):
